@@ -76,6 +76,11 @@ func failMenu() []sim.TxSpec {
 }
 
 type c05Case struct {
+	// EVMProg: a contract program [gadget, REVERT] of C17's alphabet run in C17's history family EVMFam: every call of
+	// the program FAILS after the gadget did its work (value calls, inner frames that touch third parties, CREATE, logs,
+	// storage); the node is compared with the reference EVM world, in which a failed transaction leaves nothing behind
+	EVMProg []int  `json:"evmProg,omitempty"`
+	EVMFam  int    `json:"evmFam,omitempty"`
 	Variant string `json:"variant"`
 	Ins     []ins  `json:"ins"`
 	Lv      int    `json:"lv"`
@@ -101,7 +106,7 @@ func (c *c05) Meta() engine.Meta {
 		Category:  "model_checking",
 		LevelName: "number of inserted failing transactions",
 		Technique: "exhaustive insertion of failing transactions at every position of a dense history on the real application, twin-replica differential oracle over the complete committed state",
-		Rule: "failing menu: 53 templates, one per failure reason x type (signature, chain id, nonce +-1, funds short by 1, gas, price, 2^255 / 2^256-1 amounts, over-long setdoc name / good name with over-long url, proposal whose second option is bad, staking: not a multiple / zero / below minimum / unknown delegatee / amount+fee short / ratio, unstaking: stranger / delegatee / unknown hash / 31-byte hash, withdraw: no record / above claim / non-zero amount, proposal: non-validator / heights / period / options, vote: outsider / bad choice / unknown proposal / outside window, EVM: revert / value into revert / out of gas / below intrinsic / reverting init code with and without value / plain transfers to contracts) " +
+		Rule: "failing CONTRACT programs: for every non-terminal gadget g of C17's alphabet the program [g, REVERT] in two history families - every call of it fails after g did its work (value calls, inner frames touching third parties, CREATE, logs, storage) and must leave exactly what the reference EVM world leaves: nothing; failing menu: 53 templates, one per failure reason x type (signature, chain id, nonce +-1, funds short by 1, gas, price, 2^255 / 2^256-1 amounts, over-long setdoc name / good name with over-long url, proposal whose second option is bad, staking: not a multiple / zero / below minimum / unknown delegatee / amount+fee short / ratio, unstaking: stranger / delegatee / unknown hash / 31-byte hash, withdraw: no record / above claim / non-zero amount, proposal: non-validator / heights / period / options, vote: outsider / bad choice / unknown proposal / outside window, EVM: revert / value into revert / out of gas / below intrinsic / reverting init code with and without value / plain transfers to contracts) " +
 			"inserted before every transaction position and at the end of every block of the dense 8-block history (genesis variants g3, g4L with the live stake limiter, g1; thorough adds all ordered PAIRS of templates at every position). " +
 			"Replica A (with the insertion) vs replica B (without): the inserted DeliverTx has code != 0 (otherwise the case is counted as not applicable), every other DeliverTx / EndBlock response is equal, and after every commit the COMPLETE state (all accounts, delegatees with stakes, unbonding stakes, rewards, proposals with votes, parameters, contract code and storage) is equal, empty account records aside. " +
 			"distinct_nontrivial = cases whose inserted transaction really failed at a position after at least one successful transaction in the same block or before one.",
@@ -124,6 +129,21 @@ func (c *c05) Prepare(tier string, seed int64) error {
 					c.cases = append(c.cases, c05Case{Variant: v, Ins: []ins{{b, p, t}}, Lv: 1})
 				}
 			}
+		}
+	}
+	gs := c17Gadgets()
+	rev := -1
+	for i, g := range gs {
+		if g.Name == "revert 1 byte" {
+			rev = i
+		}
+	}
+	for a, g := range gs {
+		if g.Term || rev < 0 {
+			continue
+		}
+		for _, fam := range []int{0, 1} {
+			c.cases = append(c.cases, c05Case{EVMProg: []int{a, rev}, EVMFam: fam, Lv: 1})
 		}
 	}
 	if tier == "thorough" {
@@ -150,6 +170,33 @@ func (c *c05) RunDesc(desc json.RawMessage) engine.Result {
 	_ = json.Unmarshal(desc, &cs)
 	if c.menu == nil {
 		c.menu = failMenu()
+	}
+	if len(cs.EVMProg) > 0 {
+		res, findings, _, names, mr := c17Run(c17Case{Prog: cs.EVMProg, Family: cs.EVMFam})
+		if mr != nil && mr.Res != nil {
+			defer mr.Res.Cleanup()
+		}
+		if res.Err != "" {
+			return res
+		}
+		res.Violations = nil
+		for _, f := range findings {
+			if f.Prop != "C17" && f.Prop != "BAL" && f.Prop != "C04" {
+				continue
+			}
+			res.Violations = append(res.Violations, engine.Violation{Property: "C05", Kind: "failed-contract-transaction-left-a-trace:" + f.Kind, Site: "evm-program:" + f.Site,
+				Detail: fmt.Sprintf("%s\n program [%s] (every call of it fails) in EVM family %d", f.Detail, strings.Join(names, " ; "), cs.EVMFam), Case: desc})
+			break
+		}
+		res.Count("failing_contract_programs", 1)
+		res.Count("inserted_tx_failed", mr.TxFail)
+		res.Nontrivial = mr.TxFail > 0
+		res.Outcome = "held"
+		if len(res.Violations) > 0 {
+			res.Outcome = "state-differs"
+		}
+		res.Sample = nil
+		return res
 	}
 	res := engine.Result{}
 	base := denseHistory(genesisByName(cs.Variant))
